@@ -741,6 +741,71 @@ def fam_interleave_ties(rng, n, prefix):
     return out
 
 
+# ---------- long A/V histories with repeated timestamps inside a track (C15/C01) ----------
+def fam_long_ties(rng, n, prefix):
+    """30..60 video frames and 40..90 audio frames; consecutive audio frames often share a timestamp (legal:
+    audio time only has to be non-decreasing), so the interleaving sort sees many equal keys"""
+    out = []
+    for i in range(n):
+        cfg = rand_cfg(rng, audio=rng.choice(["aac-lc", "opus"]), dims=(640, 480), meta=0)
+        codec = cfg["codec"]
+        c = Case("%s%d" % (prefix, i), "mux")
+        emit_cfg(c, cfg, rng)
+        nv, na = rng.range(30, 60), rng.range(40, 90)
+        vt = [k * 0.04 for k in range(nv)]
+        at, t = [], 0.0
+        for k in range(na):
+            at.append(t)
+            if not rng.chance(1, 2):
+                t += rng.choice([0.02, 0.04, 0.021])
+        ops = [(t, 0, k, ["wv", fb(t), hx(h264_key(rng, extra=False) if codec == "h264" and k == 0 else
+                                          (video_key(rng, codec) if k == 0 else video_delta(rng, codec))), 1 if k == 0 else 0])
+               for k, t in enumerate(vt)]
+        ops += [(t, 1, k, ["wa", fb(t), hx(audio_frame(rng, cfg["audio"])[:40] if cfg["audio"] == "opus" else adts(rng, payload_len=rng.range(1, 12)))])
+                for k, t in enumerate(at)]
+        if rng.chance(1, 2):
+            ops.sort(key=lambda x: (x[0], x[1], x[2]))
+        else:
+            ops = [o for o in ops if o[1] == 0] + [o for o in ops if o[1] == 1]
+        for _, _, _, o in ops:
+            c.o(*o)
+        c.o("fin", 0)
+        out.append(c)
+    return out
+
+
+# ---------- builder call sequences (C17/C04): repeated and overriding configuration calls ----------
+def fam_builder_scripts(rng, n, prefix):
+    out = []
+    for i in range(n):
+        c = Case("%s%d" % (prefix, i), "mux")
+        codec = rng.choice(VCODECS)
+        audio = None
+        for k in range(rng.range(1, 6)):
+            r = rng.below(8)
+            if r < 2:
+                codec = rng.choice(VCODECS)
+                c.b(rng.choice(["video", "setvideo"]), codec, "%x" % rng.choice([640, 1280, 320]), "%x" % rng.choice([480, 720, 240]))
+            elif r < 5:
+                audio = rng.choice(["aac-lc", "opus", "none", "none", "aac-he"])
+                c.b(rng.choice(["audio", "setaudio"]), audio, "%x" % rng.choice([48000, 44100]), "%x" % rng.choice([1, 2]))
+            elif r < 6:
+                c.b("meta", hx(bytes(rng.choice(b"abcXYZ 09") for _ in range(rng.range(1, 6)))) if rng.chance(1, 2) else "~", "~", "~")
+            elif r < 7:
+                c.b("lang", hx(rng.choice([b"eng", b"deu", b"und"])))
+            else:
+                c.b("fast", rng.below(2))
+        if not any(l.startswith("b video") or l.startswith("b setvideo") for l in c.lines) and rng.chance(5, 6):
+            c.b(rng.choice(["video", "setvideo"]), codec, "280", "1e0")
+        c.o("wv", fb(0.0), hx(video_key(rng, codec)), 1)
+        c.o("wa", fb(0.0), hx(audio_frame(rng, audio if audio and audio != "none" else "aac-lc")))
+        c.o("wv", fb(0.04), hx(video_delta(rng, codec)), 0)
+        c.o("wa", fb(0.03), hx(audio_frame(rng, audio if audio and audio != "none" else "opus")))
+        c.o("fin", rng.choice([0, 3]))
+        out.append(c)
+    return out
+
+
 # ---------- composition-offset boundaries (C16/C03/C04): pts - dts around +-2^31 ticks ----------
 def fam_cts_bounds(rng, n, prefix):
     out = []
